@@ -199,6 +199,24 @@ theorem C04_setter_frame_waveform (ops : FOps) (w : List WEntry) (r r' : Row)
       payloadOvw r = V2.ovw.enc r.ovw.1 ++ r.ovw.2 ∧ payloadOvw r' = V2.ovw.enc o ++ r.ovw.2 :=
   frame_waveform ops w r r' h
 
+/-- the 15 setters that write plain columns only -/
+def columnOnly : Setter → Bool
+  | .album _ | .artist _ | .bitrate _ | .bpm _ | .comment _ | .composer _ | .duration _ | .genre _
+  | .lastPlayedAt _ | .publisher _ | .rating _ | .relativePath _ | .title _ | .trackNumber _ | .year _ => true
+  | _ => false
+
+/-- **The other 15 setters** (`set_album` … `set_year`, incl. `set_bpm`, `set_relative_path`) leave the payload
+of all five performance-data columns byte-identical.  Together with the eleven theorems above every one of
+the 26 setters is covered. -/
+theorem C04_setter_frame_column_setters (ops : FOps) (σ : Setter) (hσ : columnOnly σ = true) (r r' : Row)
+    (h : applySetter ops σ r = .ok r') :
+    payloadTrack r' = payloadTrack r ∧ payloadOvw r' = payloadOvw r ∧ payloadBeat r' = payloadBeat r ∧
+    payloadCues r' = payloadCues r ∧ payloadLoops r' = payloadLoops r := by
+  cases σ <;> simp only [columnOnly, Bool.false_eq_true] at hσ <;>
+    (simp only [applySetter, Res.ok.injEq] at h; subst h; exact ⟨rfl, rfl, rfl, rfl, rfl⟩)
+
+example : columnOnly (.title (some [65])) = true ∧ columnOnly (.key none) = false := ⟨rfl, rfl⟩
+
 /-- non-vacuity, on the rows of the former counterexamples: `set_loops(loops())` on a loops column with a
 foreign trailing byte 0xcc, `set_waveform(waveform())` on an overview column with a trailing 0x09 — both calls
 succeed and the payload, foreign byte included, is exactly the old one. -/
